@@ -28,7 +28,8 @@ OrderSet(root, part) == IF part = "base" THEN OrderTrees(root) \cup RevTrees(roo
 \* (the worker that expands a state also checks its successors: 8 chunks per set keep all workers busy)
 PickOrder == st[1] = "O" /\ \E t \in {x \in OrderSet(st[2], st[3]) : Len(x.subs) % 4 = st[4]} : st' = <<"order", st[2], t, 0>>
 PickWs == st[1] = "W" /\ \E a \in WsCands(st[2]) \cup GramCands(st[2], Thorough) : st' = <<"arg", st[2], st[3], a>>
-MCNext == PickFam \/ PickCard \/ PickArg \/ PickOrder \/ PickWs
+PickExt == st[1] = "init" /\ \E e \in ExtNames : \E x \in ExtCells(e), n \in 0..2 : st' = <<"X", e, x, n>>
+MCNext == PickExt \/ PickFam \/ PickCard \/ PickArg \/ PickOrder \/ PickWs
 
 TablesOK == TableWellFormed /\ EveryKeywordPlaced
 
@@ -76,6 +77,18 @@ InterleaveNeutralB ==
 OddWsRejectedB ==
   st[1] = "arg" /\ (\E i \in 1..Len(st[4]) : SubSeq(st[4], i, i) = "~" /\ i < Len(st[4]) /\ SubSeq(st[4], i, i + 1) \in OddWs)
     => ArgVerdict(st[2], st[4]) # "valid"
+\* extension cardinalities: the tree built for cell (p, c, n) of function e violates only cells of e, and cell (p, c) iff n is out of its range
+RECURSIVE StmtKwAt(_, _)
+StmtKwAt(t, path) == IF path = << >> THEN t.kw ELSE StmtKwAt(t.subs[Head(path)], Tail(path))
+ExtMinimalB ==
+  st[1] = "X" =>
+    LET e == st[2]  p == st[3][1]  c == st[3][2]  n == st[4]
+        t == CardTree(p, c, n)
+        v == AllViolX(t, ExtFns[e])
+        cell == ExtFns[e][p][c] IN
+    /\ \A f \in v : f.judged /\ f.kind \in {"missing", "too-many"} /\ f.kw \in UNION {DOMAIN ExtFns[e][q] : q \in DOMAIN ExtFns[e]}
+    /\ (n < cell[1] \/ n > cell[2]) => \E f \in v : f.kw = c
+    /\ (n >= cell[1] /\ n <= cell[2]) => ~\E f \in v : f.kw = c /\ StmtKwAt(t, f.path) = p
 \* the compact prescription for large counts (BigExpand / BigExpect) is what Valid says of the really expanded tree
 BigConsistentB ==
   st[1] = "card" /\ st[4] = 1 /\ st[3] \in BigKw =>
@@ -95,5 +108,6 @@ OrderMinimal == OrderMinimalB \/ (PrintT(<<"MCFAIL", "OrderMinimal", st>>) /\ FA
 ExtAnywhere == ExtAnywhereB \/ (PrintT(<<"MCFAIL", "ExtAnywhere", st>>) /\ FALSE)
 InterleaveNeutral == InterleaveNeutralB \/ (PrintT(<<"MCFAIL", "InterleaveNeutral", st>>) /\ FALSE)
 OddWsRejected == OddWsRejectedB \/ (PrintT(<<"MCFAIL", "OddWsRejected", st>>) /\ FALSE)
+ExtMinimal == ExtMinimalB \/ (PrintT(<<"MCFAIL", "ExtMinimal", st>>) /\ FALSE)
 BigConsistent == BigConsistentB \/ (PrintT(<<"MCFAIL", "BigConsistent", st>>) /\ FALSE)
 =============================================================================
